@@ -258,6 +258,7 @@ def r3(ctx):
       ctx.ob('C05.R3', r, 'an active leaver is replaced from the idle set', len(ex_) == 1, 'expansions after removing an active member: %d' % len(ex_),
              'the aperture keeps its size when an active member leaves and idle members exist')
   move_rules(ctx, 'C05.R3')
+  idle_add_fresh(ctx, 'C05.R3')
 
 
 def move_rules(ctx, rule):
@@ -295,6 +296,38 @@ def move_rules(ctx, rule):
       ok = len(add) == 1 and len(sup) == 1 and U(add[0][1].args[0]) == U(sup[0][1].args[0])
       ctx.ob(rule, c, 'contraction: the same endpoint is added to idle and removed from the heap, once', ok,
              'contraction path: idle adds %s, heap removals %s' % ([U(a[1]) for a in add], [U(s[1]) for s in sup]), why)
+
+
+def idle_add_fresh(ctx, rule):
+  """What is put into the idle set was chosen in the same atomic step: no yield between the choice of the endpoint and `_idle_endpoints.add(endpoint)`
+  (across a wait the member may leave the server set; adding it afterwards holds a departed member idle)."""
+  prog = ctx.prog
+  why = ('the idle set holds current members only: an endpoint picked before a wait and parked after it may have left the server set in between, and a later expansion '
+         'then activates a departed member (or fails on its missing factory)')
+  cls = prog.cls(A, 'ApertureBalancerSink')
+  n = 0
+  for f in cls.methods.values():
+    if not any(isinstance(c, ast.Call) and U(c.func) == 'self._idle_endpoints.add' for c in ast.walk(f.node)):
+      continue
+    for ev, ex in enum_paths(ctx, f):
+      for i, e in enumerate(ev):
+        if not (e.kind == 'call' and U(e.node.func) == 'self._idle_endpoints.add' and e.node.args):
+          continue
+        n += 1
+        a = e.node.args[0]
+        root = a
+        while isinstance(root, ast.Attribute):
+          root = root.value
+        if not isinstance(root, ast.Name) or root.id in f.params:
+          continue       # a parameter: chosen by the caller (the server-set notification itself)
+        defs = [j for j, d in enumerate(ev[:i]) if d.kind in ('stmt', 'for_iter') and any(isinstance(x, ast.Name) and x.id == root.id and isinstance(x.ctx, ast.Store)
+                                                                                          for x in ast.walk(d.node if d.kind == 'stmt' else d.node.target))]
+        if not defs:
+          continue
+        ys = [U(y.node)[:60] for y in ev[defs[-1] + 1:i] if y.kind == 'call' and is_yield_call(y.node)]
+        ctx.ob(rule, f, 'the endpoint parked in the idle set was chosen after the last yield', not ys,
+               '%s is chosen, then the path yields in %s, then it is added to the idle set' % (U(a), ys), why)
+  ctx.floor(rule, 'idle-set additions of the aperture', n, 2)
 
 
 def add_remove_atomic(ctx):
